@@ -238,11 +238,20 @@ class World:
         ex = self.env.exchange
         contracts = self.contracts
 
+        def _f(v):
+            try:
+                return float(v)
+            except Exception:  # noqa: BLE001 - the observer never interferes with what it observes
+                try:
+                    return float(np.asarray(v, dtype=float).ravel()[0])
+                except Exception:  # noqa: BLE001
+                    return float("nan")
+
         def wrapped(r):
             sink.exec = {
                 "pos": len(sink.entries),
                 "stamp": r.time,
-                "alloc": {c.symbol: float(v) for c, v in r.allocation.items()},
+                "alloc": {c.symbol: _f(v) for c, v in r.allocation.items()},
                 "measure": type(r.allocation).__name__, "fractional": bool(r.fractional),
                 "books": {n: (ex[c].bid_price, ex[c].ask_price, ex[c].is_alive) for n, c in contracts.items()},
                 "rebalancing": r,
@@ -322,6 +331,8 @@ class World:
     def action(self, act):
         j, cls = act["id"], act["cls"]
         sp = self.cfg["space"]
+        if cls == "column" and sp in ("discrete", "disclots", "boxpos"):
+            cls = "index"              # (there the nested / fractional index class already is the wrongly shaped action)
         k = ((j % (N_ALLOC - 1)) + 1) if self.trade else 0
         hi = float(N_ALLOC) if sp == "boxlots" else 1.0
         unit = float(k) if sp == "boxlots" else k / 16.0
@@ -334,6 +345,10 @@ class World:
                 return np.array([unit])
             return {"shape": np.array([unit, 0.0]), "above": np.array([1.5]), "below": np.array([0.0]),
                     "nan": np.array([float("nan")]), "index": np.array([[unit]])}[cls]
+        if cls == "column":
+            # the right entries in the wrong shape: a column vector (n, 1)
+            n_ = 3 if sp == "boxcash" else 1 if sp == "boxpos" else 2
+            return np.array([[0.5 if (sp == "boxcash" and i == 0) else (unit if i == (1 if sp == "boxcash" else 0) else 0.0)] for i in range(n_)])
         if sp == "boxvec" and cls in ("above", "below"):
             # outside the bounds of its own contract, inside the loosest bounds of the space
             return np.array([unit, 0.5]) if cls == "above" else np.array([unit, -0.25])
